@@ -413,6 +413,11 @@ def p1(chk):
         all_ex = [x for i, x in enumerate(all_ex) if i < 60 or i % 9 == 0]
     else:
         all_ex = [x for i, x in enumerate(all_ex) if i < 200 or i % 3 == 0]
+    # literal operands in every position (the builder folds constants; an operand BEFORE a deciding
+    # literal must still be evaluated, one AFTER it must not)
+    all_ex += ["b0() and True", "b0() and False", "b0() or True", "b0() or False", "True and b0()", "False and b0()", "True or b0()", "False or b0()",
+               "b0() or b1() or True", "b0() and b1() and False", "b0() or True or b1()", "(b0() and False) or b1()", "not (b0() or True)", "b1() if (b0() or True) else b2()",
+               "(n0() < n1()) and True", "((n0() < n1()) or True) and b0()", "b0() and (True or b1())", "(b0() if b1() else b2()) and False", "True", "False", "not False"]
     import itertools as _it
     import re as _re
     n_ok = 0
